@@ -1,16 +1,17 @@
 #!/bin/sh
 # tools/mutant.sh <patch> <ID>... : apply a patch to /repo, run the quick checks, restore /repo.
 # Prints one line per check: <patch> <ID> exit=<rc> [violated formula]
-P=$1; shift
-# /repo is shared with other runners: one patch at a time
+P=$(realpath "$1"); shift
+# /repo is shared with other runners: one patch at a time (the lock is released when the script exits)
 exec 9>/tmp/repo.lock
 flock 9
 export VERIF_LOCK_HELD=1
+ROOT=$(cd "$(dirname "$0")/.." && pwd)
 cd /repo || exit 2
 git diff --quiet || { echo "/repo has uncommitted changes"; exit 2; }
 git apply "$P" || { echo "patch does not apply: $P"; exit 2; }
 trap 'cd /repo && git checkout -- . ' EXIT INT TERM
-cd /verif
+cd "$ROOT"
 for ID in "$@"; do
   OUT=$(./check "$ID" --tier quick --no-mc 2>&1); RC=$?
   F=$(echo "$OUT" | grep -E "^violated formula" | head -3 | tr '\n' ';')
